@@ -191,8 +191,11 @@ def solve(case, lane="f64", obj_perm=None, con_perm=None):
     if con_perm is not None:
         cons = [cons[i] for i in con_perm]
     cfg = _resolve_grid_from_volume(objs, cfg)
-    slices, errors = resolve_object_constraints(objs, cons, cfg)
     edges = [np.asarray(cfg.grid.edges(a)).astype(np.float64) for a in range(3)]
+    try:
+        slices, errors = resolve_object_constraints(objs, cons, cfg)
+    except Exception as e:  # noqa: BLE001 - place_objects documents raising on unresolvable input: a failed placement
+        return False, {}, {"<raised>": f"{type(e).__name__}: {e}"}, edges
     ok = not any(bool(v) for v in errors.values())
     return ok, slices, errors, edges
 
@@ -494,7 +497,12 @@ class _Gen:
         self.wmin_all = min(float(x.min()) for x in self.w)
         self.n_obj = n_obj
         self.noise = noise  # "none" | "some" | "all"
+        self.axis_iv_noise = False
         self.layout = {0: [(0, n) for n in self.N]}
+        # (object, axis) whose bounds are known without waiting for an extension-to-infinity round; the solver
+        # extends *every* open bound at the first fixpoint, so sources referring to a late axis usually end in a
+        # reported inconsistency (or, before the fix of F8, in a silently ignored constraint)
+        self.early = {(0, a): True for a in range(3)}
         self.objs = []
         self.cons = []
 
@@ -505,17 +513,23 @@ class _Gen:
         return lo, hi
 
     def noisy(self):
+        """-> (use a wrong interval for this source, refer to an arbitrary object)."""
         if self.noise == "none":
-            return False
+            return False, False
         if self.noise == "all":
-            return True
-        return self.draw(st.integers(0, 7)) == 0
+            return self.axis_iv_noise, True
+        b = self.draw(st.integers(0, 7)) == 0
+        return b, b
 
-    def other(self, k, noisy):
+    def other(self, k, noisy, a):
         if noisy and self.n_obj > 1:
             r = self.draw(st.integers(0, self.n_obj - 1))
             return r if r < k else r + 1  # any object but k, cycles allowed
-        return self.draw(st.integers(0, k - 1))
+        r = self.draw(st.integers(0, k - 1))
+        if not self.early.get((r, a), False) and self.draw(st.integers(0, 5)):
+            cand = [q for q in range(k) if self.early.get((q, a), False)]
+            r = self.draw(st.sampled_from(cand))
+        return r
 
     def lay(self, r, a):
         """Planted interval of object r; objects not laid out yet (noisy forward references) get a random one."""
@@ -547,18 +561,20 @@ class _Gen:
         return float((e[n] - e[0]) - f * (e[n] - e[n - 1]))
 
     def size_source(self, k, a, iv, o):
-        noisy = self.noisy()
-        if noisy:
+        wrong, noisy = self.noisy()
+        if wrong:
             iv = self.interval(a)
         n = iv[1] - iv[0]
         kind = self.draw(st.sampled_from(["gs", "rs", "sc", "sc"]))
         if kind == "gs":
             o["gs"][a] = n
+            return True
         elif kind == "rs":
             o["rs"][a] = self.length_for(a, n)
+            return True
         else:
-            r = self.other(k, noisy)
             oa = a if self.draw(st.integers(0, 3)) else self.draw(st.integers(0, 2))
+            r = self.other(k, noisy, oa)
             riv = self.lay(r, oa)
             E = float(self.edges[oa][riv[1]] - self.edges[oa][riv[0]])
             p = self.draw(st.sampled_from([1.0, 1.0, 0.5, 2.0, 0.25, 1.5]))
@@ -566,10 +582,11 @@ class _Gen:
             via = "same" if (p == 1.0 and oa == a and self.draw(st.booleans())) else "rel"
             self.cons.append({"t": "size", "o": k, "r": r, "ax": [a], "oax": [oa], "p": [p], "off": [off],
                               "goff": [goff], "via": via})
+            return self.early.get((r, oa), False)
 
     def pos_source(self, k, a, iv, o):
-        noisy = self.noisy()
-        if noisy:
+        wrong, noisy = self.noisy()
+        if wrong:
             n = iv[1] - iv[0]
             lo = self.draw(st.integers(0, self.N[a] - n))
             iv = (lo, lo + n)
@@ -577,17 +594,20 @@ class _Gen:
         if self.draw(st.integers(0, 3)) == 0:
             mid = 0.5 * (self.edges[a][0] + self.edges[a][-1])
             o["rp"][a] = float(self.anc(a, iv, 0.0) - mid + self.draw(_frac_st) * wm)
-            return
-        r = self.other(k, noisy)
+            return True
+        r = self.other(k, noisy, a)
         riv = self.lay(r, a)
-        own = self.draw(_anchor_st)
-        oth = self.draw(_anchor_st)
+        if self.draw(st.integers(0, 2)) == 0:  # the face-to-face / centred pairs the convenience builders stand for
+            own, oth = self.draw(st.sampled_from([(-1.0, 1.0), (1.0, -1.0), (0.0, 0.0)]))
+        else:
+            own = self.draw(_anchor_st)
+            oth = self.draw(_anchor_st)
         base = self.anc(a, iv, own) - self.anc(a, riv, oth)
         tie = self.uni and self.draw(st.integers(0, 9)) == 0
         m = base + (0.5 * wm if tie else self.draw(_frac_st) * wm)
         m, gm = self.split_grid(m)
         via = "rel"
-        pick = self.draw(st.integers(0, 2))
+        pick = self.draw(st.sampled_from([0, 1, 1, 2]))
         if pick and own == -1.0 and oth == 1.0:
             via = "above" if (a == 2 and pick == 1) else "f2f+"
         elif pick and own == 1.0 and oth == -1.0:
@@ -600,10 +620,11 @@ class _Gen:
             via = "rel_scalar"
         self.cons.append({"t": "pos", "o": k, "r": r, "ax": [a], "own": [own], "oth": [oth], "m": [m], "gm": [gm],
                           "via": via})
+        return self.early.get((r, a), False)
 
     def side_source(self, k, a, side, iv, allow_inf):
-        noisy = self.noisy()
-        if noisy:
+        wrong, noisy = self.noisy()
+        if wrong:
             iv = self.interval(a)
         b = iv[0] if side == "-" else iv[1]
         e = self.edges[a]
@@ -617,8 +638,11 @@ class _Gen:
                 opts += ["inf", "inf"]
         kind = self.draw(st.sampled_from(opts))
         if kind == "inf":
-            return
+            return False
+        early = True
         if kind == "gc":
+            if wrong:  # also coordinates next to / outside the volume
+                b = b + self.draw(st.sampled_from([0, 0, 0, 1, -1, self.N[a]]))
             self.cons.append({"t": "gc", "o": k, "ax": [a], "sides": [side], "c": [int(b)]})
         elif kind == "rc":
             wl = float(e[b] - e[b - 1]) if b > 0 else float(e[1] - e[0])
@@ -630,7 +654,8 @@ class _Gen:
             self.cons.append({"t": "ext", "o": k, "r": None, "axis": a, "dir": side, "op": None, "off": 0.0,
                               "goff": 0})
         else:
-            r = self.other(k, noisy)
+            r = self.other(k, noisy, a)
+            early = self.early.get((r, a), False)
             riv = self.lay(r, a)
             op = self.draw(st.one_of(st.none(), _anchor_st))
             ope = op if op is not None else (-1.0 if side == "+" else 1.0)
@@ -638,6 +663,7 @@ class _Gen:
             off, goff = self.split_grid(off)
             self.cons.append({"t": "ext", "o": k, "r": r, "axis": a, "dir": side, "op": op, "off": off,
                               "goff": goff})
+        return early
 
     # -- one object --------------------------------------------------------------------------------------------
     def add_object(self, k):
@@ -646,6 +672,10 @@ class _Gen:
         for a in range(3):
             mode = self.draw(st.sampled_from(MODES))
             N = self.N[a]
+            self.early[(k, a)] = False
+            # free systems: half of the axes keep their sources mutually consistent (only the cross-object
+            # references are arbitrary), the other half draw every source from its own interval
+            self.axis_iv_noise = self.noise == "all" and self.draw(st.booleans())
             if mode == "free":
                 self.layout[k][a] = (0, N)
                 continue
@@ -653,31 +683,39 @@ class _Gen:
                 iv = (0, self.draw(st.integers(1, N)))
             elif mode == "clone":
                 r = self.draw(st.integers(0, k - 1))
+                if not self.early[(r, a)] and self.draw(st.integers(0, 5)):
+                    r = 0
                 iv = self.layout[r][a]
                 self.layout[k][a] = iv
                 self.cons.append({"t": "pas", "o": k, "r": r, "ax": [a]})
+                self.early[(k, a)] = self.early[(r, a)]
                 continue
             else:
                 iv = self.interval(a)
             self.layout[k][a] = iv
+            side = self.draw(st.sampled_from(["-", "+"]))
             if mode == "size_only":
                 self.size_source(k, a, iv, o)
             elif mode == "size_pos":
-                self.size_source(k, a, iv, o)
-                self.pos_source(k, a, iv, o)
+                e1 = self.size_source(k, a, iv, o)
+                e2 = self.pos_source(k, a, iv, o)
+                self.early[(k, a)] = e1 and e2
             elif mode == "size_side":
-                self.size_source(k, a, iv, o)
-                self.side_source(k, a, self.draw(st.sampled_from(["-", "+"])), iv, False)
+                e1 = self.size_source(k, a, iv, o)
+                e2 = self.side_source(k, a, side, iv, False)
+                self.early[(k, a)] = e1 and e2
             elif mode == "two_sides":
-                self.side_source(k, a, "-", iv, True)
-                self.side_source(k, a, "+", iv, True)
+                e1 = self.side_source(k, a, "-", iv, True)
+                e2 = self.side_source(k, a, "+", iv, True)
+                self.early[(k, a)] = e1 and e2
             elif mode == "trap":  # position + one bound, no size source (consistent, but see F8)
                 self.pos_source(k, a, iv, o)
-                self.side_source(k, a, self.draw(st.sampled_from(["-", "+"])), iv, False)
+                self.side_source(k, a, side, iv, False)
             elif mode == "over":  # consistent over-determination
-                self.size_source(k, a, iv, o)
-                self.pos_source(k, a, iv, o)
-                self.side_source(k, a, self.draw(st.sampled_from(["-", "+"])), iv, False)
+                e1 = self.size_source(k, a, iv, o)
+                e2 = self.pos_source(k, a, iv, o)
+                e3 = self.side_source(k, a, side, iv, False)
+                self.early[(k, a)] = e1 and e2 and e3
         self.objs.append(o)
 
 
@@ -704,7 +742,7 @@ def _merge(draw, cons):
 @st.composite
 def system_strategy(draw, noise="none", max_objects=8, grid_kinds=None):
     grid = draw(grid_strategy(kinds=grid_kinds) if grid_kinds else grid_strategy())
-    n = draw(st.integers(1, max_objects))
+    n = draw(st.sampled_from([m for m in (1, 2, 2, 3, 3, 4, 4, 5, 6, 7, 8) if m <= max_objects]))
     gen = _Gen(draw, grid, n, noise)
     for k in range(1, n + 1):
         gen.add_object(k)
@@ -788,3 +826,51 @@ def small_systems(max1, max2):
             sysm = small_system(i1, i2)
             if sysm is not None:
                 yield sysm
+
+
+# ----------------------------------------------------------------------------------------------------------------
+# recognising the "never verified" class (F8 / F9) for KNOWN_CLASSES
+# ----------------------------------------------------------------------------------------------------------------
+def pinned_system(case, slices, edges):
+    """The same system with every object pinned to ``slices`` by coordinate constraints (listed first), plus two
+    inert helper objects (``zf`` unconstrained, ``zd`` one cell centred on ``zf``) that cannot be resolved before the
+    first extension-to-infinity round and therefore force the solver through one more full pass over all constraints
+    with every bound known.  If the solver rejects this system, its own constraint handling regards ``slices`` as
+    inconsistent with the constraints, i.e. the plain run returned them without ever checking."""
+    nm = names(case)
+    pins = []
+    for k in range(1, len(nm)):
+        sl = slices[nm[k]]
+        pins.append({"t": "rc", "o": k, "ax": [0, 1, 2, 0, 1, 2], "sides": ["-", "-", "-", "+", "+", "+"],
+                     "c": [float(edges[a][sl[a][0]]) for a in range(3)] + [float(edges[a][sl[a][1]]) for a in range(3)]})
+    n = len(nm)
+    objs = list(case["objects"]) + [
+        {"name": "zf", "gs": [None] * 3, "rs": [None] * 3, "rp": [None] * 3},
+        {"name": "zd", "gs": [1, 1, 1], "rs": [None] * 3, "rp": [None] * 3},
+    ]
+    helper = {"t": "pos", "o": n + 1, "r": n, "ax": [0, 1, 2], "own": [0.0] * 3, "oth": [0.0] * 3, "m": [0.0] * 3,
+              "gm": [0] * 3, "via": "center"}
+    return {"grid": case["grid"], "objects": objs, "constraints": pins + list(case["constraints"]) + [helper],
+            "planted": None}, len(pins)
+
+
+def verified_verdict(case, lane="f64", obj_perm=None, con_perm=None):
+    """-> (plain ok, slices, problems, verified ok).  ``verified ok`` is False when the plain run succeeds with
+    slices that violate the predicate *and* the solver itself rejects those slices once forced to re-check."""
+    ok, sl, err, ed = solve(case, lane, obj_perm, con_perm)
+    if not ok:
+        return ok, sl, [], False
+    probs = verify(case, sl, ed)
+    if not probs or any(p["kind"] in ("grid", "missing", "unresolved", "volume", "bounds") for p in probs):
+        return ok, sl, probs, True
+    pinned, npin = pinned_system(case, sl, ed)
+    nflat = n_flat_constraints(case)
+    cp = None
+    if con_perm is not None:
+        cp = list(range(npin)) + [npin + i for i in con_perm] + [npin + nflat]
+    op = None
+    if obj_perm is not None:
+        op = list(obj_perm) + [len(obj_perm), len(obj_perm) + 1]
+    ok2, sl2, err2, _ = solve(pinned, lane, op, cp)
+    rejected = (not ok2) and all(not err2.get(z) for z in ("zf", "zd"))
+    return ok, sl, probs, not rejected
